@@ -16,6 +16,7 @@ mod ts;
 mod cred;
 mod did;
 mod iota;
+mod verifiers;
 mod malformed;
 
 // the Kani harness bodies, compiled natively (cfg(not(kani))) and fed with CBMC's concrete values
@@ -90,6 +91,7 @@ fn main() {
     "iota_did" => iota::iota_did(&cex),
     "did_syntax" => did::syntax(&cex),
     "did_probe" => did::probe(&cex),
+    "verifier_dispatch" => verifiers::dispatch(&cex),
     "did_cursor" => did::cursor(&cex),
     "malformed_inputs" => malformed::malformed(&cex),
     "credential_validation" => cred::credential_validation(&cex),
